@@ -1,6 +1,7 @@
 package main
 
 import (
+	"encoding/json"
 	"context"
 	"fmt"
 	"os"
@@ -163,6 +164,24 @@ func (eng *Engine) discharge(g *Gen, o *Obl, dir string, idx int, timeout time.D
 		}
 		return res
 	}
+	// stage 0: the solver recorded (solver_hints.json, maintained with VERIF_WRITE_HINTS=1) as the one that decides this
+	// obligation, when it is not the first of the portfolio: saves the time-outs of the ones before it
+	if h := eng.solverHint(o.name); h != "" {
+		for _, s := range solvers[1:] {
+			if s.Name != h {
+				continue
+			}
+			f := file
+			if s.Cmd[0] == "cvc5" {
+				f = base + ".cvc5.smt2"
+				os.WriteFile(f, []byte(cvc5Compat(q)), 0o644)
+			}
+			if a := try(s, f, timeout); a == "unsat" {
+				res.Status, res.Solver, res.Answer = "proved", s.Name, a
+				return res
+			}
+		}
+	}
 	// stage 1: z3 5.1 short
 	ans := try(solvers[0], file, timeout)
 	res.Answer = ans
@@ -252,4 +271,35 @@ func (eng *Engine) dischargeAll(g *Gen, dir string, timeout time.Duration, worke
 	}
 	wg.Wait()
 	return results
+}
+
+var hintsOnce sync.Once
+var hints map[string]string
+
+// solverHint: performance hint only (which back end decided the obligation last time); never affects verdicts
+func (eng *Engine) solverHint(name string) string {
+	hintsOnce.Do(func() {
+		hints = map[string]string{}
+		if b, err := os.ReadFile(filepath.Join(eng.verifDir, "solver_hints.json")); err == nil {
+			json.Unmarshal(b, &hints)
+		}
+	})
+	return hints[name]
+}
+
+// writeHints (maintenance, VERIF_WRITE_HINTS=1): record the deciding back end of every obligation not decided by the first
+func (eng *Engine) writeHints(results []*OblResult) {
+	eng.solverHint("")
+	for _, r := range results {
+		if r == nil || r.Obl == nil || r.Obl.probe {
+			continue
+		}
+		if r.Status == "proved" && r.Solver != solvers[0].Name && !strings.Contains(r.Solver, "+split") {
+			hints[r.Obl.name] = r.Solver
+		} else if r.Status == "proved" {
+			delete(hints, r.Obl.name)
+		}
+	}
+	b, _ := json.MarshalIndent(hints, "", " ")
+	os.WriteFile(filepath.Join(eng.verifDir, "solver_hints.json"), b, 0o644)
 }
